@@ -245,3 +245,102 @@ def gen_feature_decls(rng, tier):
     b.add("String", [block("validate", [[tid("not_empty")]]), D(["Debug"])], "ok")
     b.add("f64", [block("validate", [[tid("finite")]]), D(["Debug", "PartialEq", "Eq", "PartialOrd", "Ord"])], "ok")
     return b.decls
+
+
+# ---------------------------------------------------------------- C02: spellings and layouts
+
+REL = {"greater": lambda x, b: x > b, "greater_or_equal": lambda x, b: x >= b,
+       "less": lambda x, b: x < b, "less_or_equal": lambda x, b: x <= b,
+       "len_char_min": lambda x, b: x >= b, "len_char_max": lambda x, b: x <= b}
+
+
+def gen_c02_decls(rng, tier):
+    """(1) one rule, every spelling: the intended value and kind are recorded on the
+    declaration so that the expected verdict at the bound's neighbours is computed without the
+    model; (2) layout families: one rule set in many attribute layouts, all members must behave
+    identically"""
+    b = Builder("c")
+    D = derive_block
+    types = ["i8", "u8", "i32", "u64", "i128"] if tier == "quick" else list(INT_TYPES)
+    n = 0
+    for ty in types:
+        lo, hi = ity_min(ty), ity_max(ty)
+        vals = [v for v in (-7, 0, 16, 100, lo + 2, hi - 2) if lo < v < hi]
+        for si, style in enumerate(INT_STYLES):
+            for ki, kind in enumerate(LOWER + UPPER):
+                v = vals[(si + ki + n) % len(vals)]
+                env = []
+                e = spell_int(ty, v, style, env, "b")
+                d = b.add(ty, [block("validate", [[tid(kind), EQ, tx(e)]]), D(["Debug"])], "spelling", env=env)
+                d.rule = (kind, v)
+                d.tags.add("spelling")
+        n += 1
+    for ty in ("f32", "f64"):
+        is64 = FLOAT_TYPES[ty]
+        texts = ["-5.5", "0.0", "64.0", "1e3", "2.5E-3", "1_000.5", "7", "-0.0", "100"]
+        for si, style in enumerate(["lit", "const", "negconst", "parenconst", "parenlit"]):
+            for ki, kind in enumerate(LOWER + UPPER):
+                t = texts[(si * 2 + ki) % len(texts)]
+                env = []
+                e = spell_float(ty, t, style, env, "b")
+                d = b.add(ty, [block("validate", [[tid(kind), EQ, tx(e)]]), D(["Debug"])], "spelling", env=env)
+                d.rule = (kind, fbits(t, is64))
+                d.tags.add("spelling")
+        for which, kind in (("MAX", "less_or_equal"), ("MIN", "greater_or_equal"), ("MIN_POSITIVE", "greater"), ("EPSILON", "less")):
+            env = []
+            e = assoc_float(ty, which, env)
+            d = b.add(ty, [block("validate", [[tid(kind), EQ, tx(e)]]), D(["Debug"])], "spelling", env=env)
+            d.rule = (kind, env[-1][2])
+            d.tags.add("spelling")
+    for kind in ("len_char_min", "len_char_max"):
+        for si, style in enumerate(USIZE_STYLES):
+            v = [0, 1, 2, 4][si % 4]
+            env = []
+            e = spell_int("usize", v, style, env, "b")
+            d = b.add("String", [block("validate", [[tid(kind), EQ, tx(e)]]), D(["Debug"])], "spelling", env=env)
+            d.rule = (kind, v)
+            d.tags.add("spelling")
+    # ---- layout families
+    fam_id = 0
+
+    def family(inner, mk_blocks, variants):
+        nonlocal fam_id
+        for v in variants:
+            blocks, trailing = mk_blocks(v)
+            d = Decl("c%d" % len(b.decls), inner, attr(blocks, trailing=trailing), tags={"verdict", "layout"})
+            d.expect = "layout"
+            d.family_id = fam_id
+            d.default_arg = None
+            b.decls.append(d)
+        fam_id += 1
+
+    perms = permutations([0, 1, 2, 3])
+    if tier == "quick":
+        perms = perms[::2]
+
+    def int_blocks(v):
+        perm, form_s, form_p, trail = v
+        bl = [block("sanitize", [[tid("with"), EQ, tfn(0, form_s, "s")]], trailing=trail),
+              block("validate", [[tid("greater"), EQ, li(3)], [tid("less_or_equal"), EQ, li(10)], [tid("predicate"), EQ, tfn(1, form_p, "p")]], trailing=not trail),
+              [tid("default"), EQ, li(5)],
+              D(["Debug", "Default"])]
+        return [bl[i] for i in perm], trail
+    family("i32", int_blocks, [(p, FORMS[i % 5], PRED_FORMS[i % 3], bool(i % 2)) for i, p in enumerate(perms)])
+
+    def str_blocks(v):
+        perm, rx, trail = v
+        bl = [block("sanitize", [[tid("trim")], [tid("lowercase")]], trailing=trail),
+              block("validate", [[tid("len_char_min"), EQ, li(2)], [tid("regex"), EQ, tstr(REGEX_LITS[0]) if rx else tpath("RE0")]]),
+              [tid("default"), EQ, tx(estr("abc"))],
+              D(["Debug", "Default"])]
+        return [bl[i] for i in perm], trail
+    family("String", str_blocks, [(p, bool(i % 2), bool((i // 2) % 2)) for i, p in enumerate(perms[::2])])
+
+    def f_blocks(v):
+        perm, form_p, trail = v
+        bl = [block("validate", [[tid("finite")], [tid("greater_or_equal"), EQ, lf("0.0")], [tid("predicate"), EQ, tfn(0, form_p, "p")]], trailing=trail),
+              block("sanitize", [[tid("with"), EQ, tfn(2, "p", "s")]]),
+              D(["Debug"])]
+        return [bl[i] for i in perm], trail
+    family("f64", f_blocks, [(p, PRED_FORMS[i % 3], bool(i % 2)) for i, p in enumerate(permutations([0, 1, 2]))])
+    return b.decls
